@@ -149,10 +149,10 @@ PROGRAMS = [
     "{{ l | map: k | join: ',' }}|{{ l | where: k | size }}|{{ l | where: k, probe | size }}|{{ l | reject: k | size }}",
     "{{ l | sort: k | size }}|{{ l | sort_natural: k | size }}|{{ l | sort_numeric: k | size }}|{{ l | sum: k }}|{{ l | uniq: k | size }}|{{ l | compact: k | size }}",
     "{{ l | find: k }}|{{ l | has: k }}|{{ l | find_index: k }}|{{ l | find: k, probe }}|{{ l | map: i => i[k] | join: ',' }}|{{ l | where: i => i[k] | size }}",
-    "{% for p in o %}{{ p }}{{ p[k] }}{% endfor %}|{% for p in l %}{{ p[k] }}{{ forloop[k] }}{% endfor %}|{% tablerow p in l %}{{ tablerowloop[k] }}{% endtablerow %}",
+    "{% for p in o %}{{ p }}{{ p[k] }}{% endfor %}|{% for p in l %}{{ p[k] }}{% endfor %}|{% for p in l %}{{ forloop[k] }}{% endfor %}|{% tablerow p in l %}{{ tablerowloop[k] }}{% endtablerow %}",
     "{% render 'p', o: o, k: k %}|{% include 'p' %}|{% with q: o %}{{ q[k] }}{% endwith %}|{% assign z = o[k] %}{{ z }}|{% capture c %}{{ o[k] }}{% endcapture %}{{ c }}",
     "{{ o | default: k }}|{{ o | size }}|{{ o | first }}|{{ o | last }}|{{ o | join: k }}|{{ o | json }}|{{ k | append: o }}|{{ o | slice: 0 }}|{{ o | concat: l | size }}|{{ o | reverse | size }}",
-    "{% if o[k] %}T{% endif %}{% if o == k %}E{% endif %}{% if o contains k %}C{% endif %}{% case o[k] %}{% when probe %}W{% endcase %}{{ o[k] | upcase }}{{ 'a' if o[k] else 'b' }}",
+    "{% if o[k] %}T{% endif %}|{% if o == k %}E{% endif %}|{% if o contains k %}C{% endif %}|{% case o[k] %}{% when probe %}W{% endcase %}|{{ o[k] | upcase }}|{{ 'a' if o[k] else 'b' }}",
     "{% include k %}",
     "{{ k | escape: environment: o }}|{{ k | t: context: o }}|{{ k | strip_html: environment: o }}|{{ k | join: environment: o }}|{{ k | url_encode: environment: o, context: o }}",
     "{{ o | t: k }}|{{ k | t: o: o }}|{% translate o: o, k: k %}{{ o }}{{ k }}{% endtranslate %}|{{ o | date: k }}|{{ k | date: o }}",
